@@ -289,7 +289,10 @@ class NamespaceClass(Namespace[symtable.Class]):
             if name in comp.target_names:
                 return Name(id=name, ctx=Load())
 
-        if name in self.globals_used_in_comp:
+        # inside a lambda or a comprehension the class scope is invisible
+        inside_lambda_or_comp = len(self.comp_stack) > 0
+
+        if inside_lambda_or_comp and name in self.globals_used_in_comp:
             return Name(id=name, ctx=Load())
 
         symbol = self.symt.lookup(name)
@@ -300,7 +303,7 @@ class NamespaceClass(Namespace[symtable.Class]):
                 slice=Constant(value=name),
                 ctx=Load(),
             )
-        elif symbol.is_global():
+        elif symbol.is_global() or inside_lambda_or_comp:
             return Name(id=name, ctx=Load())
         else:
             # a class member
